@@ -40,7 +40,8 @@ PATH = '/svc'
 NAMES = ['member_%d' % i for i in range(6)]
 
 
-def data(i):
+def data(i, ep=None):
+  i = i if ep is None else ep
   return json.dumps({'serviceEndpoint': {'host': 'h%d' % i, 'port': 1000 + i}, 'additionalEndpoints': {}, 'status': 'ALIVE'}).encode()
 
 
@@ -54,6 +55,10 @@ def strategy(tier):
       (2, st.tuples(st.just('raises'), st.integers(1, 3)).map(list)),
       (4, st.tuples(st.just('advance'), st.sampled_from([0, 1, 2, 5, 20])).map(list)),
       (2, st.just(['check'])),
+      # a server re-registers under a new znode name with the same endpoint, both events in one listing
+      (2, st.tuples(st.just('replace'), st.integers(0, 5)).map(list)),
+      # a child is listed, vanishes before it is read and is re-created before the path is listed again
+      (1, st.tuples(st.just('vanish'), st.integers(0, 5)).map(list)),
   ]
   return st.fixed_dictionaries({
       'initial_parent': st.booleans(),
@@ -113,6 +118,13 @@ def execute(plan):
       return [i for i in zk.incarnations.get(PATH, [])
               if i['deleted'] is not None and i['czxid'] not in seen and [c for c in i['children'] if c.startswith('member_')]]
 
+    def tree_eps():
+      return dict((n, tuple(sorted(json.loads(zk.tree['%s/%s' % (PATH, n)][0].decode())['serviceEndpoint'].items())))
+                  for n in tree_members())
+
+    def ep_of(i):
+      return tuple(sorted({'host': 'h%d' % i, 'port': 1000 + i}.items()))
+
     def tree_members():
       ch = zk.children(PATH)
       return set(c for c in (ch or []) if c.startswith('member_'))
@@ -141,7 +153,7 @@ def execute(plan):
             sorted(held), sorted(want), where, log[-10:], zk.callback_errors[-3:]))
       if lb is not None and lb._LoadBalancerSink__init_done.is_set():
         got = set((ep.host, ep.port) for ep in lb._servers)
-        wantep = set(('h%d' % int(n.split('_')[1]), 1000 + int(n.split('_')[1])) for n in want)
+        wantep = set((dict(e)['host'], dict(e)['port']) for e in tree_eps().values())
         if got != wantep:
           if zkp is not None and zkp._server_set is not None and wantep < got and unobserved_incarnations(zkp._server_set):
             raise Violation(ID, 'unobserved-path-incarnation', 'balancer keeps %r, tree has %r %s' % (sorted(got - wantep), sorted(wantep), where))
@@ -152,9 +164,36 @@ def execute(plan):
     for step, op in enumerate(plan['ops']):
       k = op[0]
       if k == 'create':
-        zk.z_create('%s/%s' % (PATH, NAMES[op[1]]), data(op[1]))
+        # two live znodes never advertise the same endpoint (the balancer keys its members by endpoint)
+        if ep_of(op[1]) not in tree_eps().values():
+          zk.z_create('%s/%s' % (PATH, NAMES[op[1]]), data(op[1]))
+      elif k == 'replace':
+        # member_i <-> member_ib: a znode name is bound to one endpoint for the whole history
+        a, b = NAMES[op[1]], NAMES[op[1]] + 'b'
+        live = tree_members()
+        if b in live:
+          a, b = b, a
+        if a in live and b not in live:
+          zk.z_delete('%s/%s' % (PATH, a))
+          zk.z_create('%s/%s' % (PATH, b), data(op[1]))
+          flags.add('renamed_same_endpoint')
+      elif k == 'vanish':
+        p = '%s/%s' % (PATH, NAMES[op[1]])
+        if PATH in zk.tree and p not in zk.tree and ep_of(op[1]) not in tree_eps().values():
+          advance(0.03)                       # watches armed, nothing in flight
+          zk.override = {'get_children': 0.0, 'get': 0.002, 'exists': 0.0}
+          zk.z_create(p, data(op[1]))
+          advance(0.001)                      # listed; the read of the new child is in flight
+          zk.override = {'get_children': 0.005, 'get': 0.0, 'exists': 0.0}
+          zk.z_delete(p)                      # the read will find nothing; the path is being listed again (slowly)
+          advance(0.003)
+          zk.z_create(p, data(op[1]))         # back before the second listing is taken
+          advance(0.004)
+          zk.override = {}
+          flags.add('vanished_between_listing_and_read_then_recreated')
       elif k == 'delete':
         zk.z_delete('%s/%s' % (PATH, NAMES[op[1]]))
+        zk.z_delete('%s/%s' % (PATH, NAMES[op[1]] + 'b'))
       elif k == 'other':
         p = PATH + '/other_1'
         (zk.z_create(p, b'x') if op[1] else zk.z_delete(p))
